@@ -6,6 +6,24 @@ props = [json.loads(l) for l in open(os.path.join(V, 'properties.jsonl'))]
 
 # id -> (level category, technique, level text, level note, design ref)
 CLAIMED = {
+ 'C02': ('exploration', 'property-based testing + enumerated sequence sweep over simulated networks, ground-truth oracle',
+         'Generated search over supported cells, packet sizes, tos, patterns and quotation shapes (RFC minimum .. whole datagram, RFC 4884 compliant / legacy extension, remarked TOS, quoted TTL, IP options) judged by the ground truth; plus a sweep in which every sequence number the state machine issues (thorough: the whole issuable range per cell, ~10.6 M probes) must be matched. Negative half: quotations of datagrams never sent must complete nothing.',
+         'Paris/Dublin in unprivileged mode excluded as documented-unsupported; NAT checksum rewriting excluded for Paris.', 'DESIGN.md 3/C02'),
+ 'C03': ('exploration', 'property-based testing with adversarial packet injection and two-tracer decomposition, ground-truth + bookkeeping-model oracles',
+         'Generated search: duplicates, late, foreign-trace-id, other destination/port/protocol, missing marker, never-sent (inside and outside the window) and before-round packets interleaved with the real send/receive loop; a second tracer run alone has its traffic replayed into the first. Outcomes, schedule, timing (both directions) and path length are judged against ground truth fed with genuine responses only.',
+         'forged packets naming a sequence on the wire in the current round, and responses >= 2 rounds late that alias, are indistinguishable by design and excluded (counted).', 'DESIGN.md 3/C03'),
+ 'C07': ('exploration', 'enumerated walk of the real TracerState over (round start, round size) + stateful PBT + simulated TCP address-in-use storms',
+         'The wrap regions of the (round-start sequence, round size) graph are enumerated completely in the thorough tier for 9 boundary initial sequences x 3 regimes through the real next_probe/reissue_probe/advance_round/in_round/complete_probe; random round-size histories and end-to-end TCP storms (capacity error instead of out-of-bounds) complete it. One recorded finding (TCP, initial sequence > 63999, > 254 sequences per round).',
+         'the in_round gate of recv_response is mirrored by the walk; round starts far from both ends are covered by random histories only.', 'DESIGN.md 3/C07'),
+ 'C09': ('fault_enumeration', 'fault-script enumeration (all single faults and pairs for small configurations) + random fault scripts over simulated runs',
+         'Socket faults (stage, n-th call, errno) are injected into the simulated Socket: every single fault and pair at the first calls of every stage for each of the 36 supported cells (max-ttl 3, 2 rounds), and 0..4 random faults over generated runs. Round count/numbering, Ok vs the injected error, error visibility in snapshots, Failed/Skipped semantics and no activity after a fatal error are checked.',
+         'the transient-errno table is tabulated from the ErrorMapper call sites; malformed inbound packets belong to C04.', 'DESIGN.md 3/C09'),
+ 'C11': ('exploration', 'property-based testing: independent RFC decoder over every datagram captured at the simulated send socket',
+         'Every probe handed to the send socket in generated runs and in the C02 sequence sweep is decoded with an independently written codec and compared with configuration and with the probe the tracer published for it (ttl, tos, DF, addresses, lengths, ICMP/UDP checksums, sequence field per strategy, trace id, size, pattern); out-of-range packet sizes must be refused with an error before anything is sent.',
+         'IPv4 header checksum / ICMP IP id are kernel-filled and not checked; non-raw headers are synthesised from the socket options.', 'DESIGN.md 3/C11'),
+ 'C19': ('exploration', 'property-based testing over simulated paths with 0..3 rewriting devices, ground-truth checksum oracle',
+         'Generated search: NAT devices (incl. twice-NAT restoring the checksum) at arbitrary distances, silent/lossy hops, all strategies/families as controls; after every round each hop\'s last NAT status is compared with the rule stated in the property evaluated on the checksums the simulator actually quoted.',
+         'a NAT restores quoted address/port but not the quoted UDP checksum.', 'DESIGN.md 3/C19'),
  'C01': ('exploration', 'property-based testing: generated configurations x simulated networks, ground-truth event-log oracle',
          'Generated search: the real Builder/Channel/Strategy/State run over a simulated Socket on a virtual clock; every published probe status is compared with the ground truth the simulator recorded (what was delivered, from whom, when it was read). Holds on everything generated; no proof of absence.',
          'SimSocket replaces the platform socket layer; verif_run_with_socket mirrors TracerInner::run_internal (6 statements); ground truth decoded with an independent wire codec.', 'DESIGN.md 3/C01'),
